@@ -176,6 +176,19 @@ def main():
             return run_worker_subprocess(pid, c, a.tier, tmpdir, int(o.get("budget_s", 600)) + 120)
         with ThreadPoolExecutor(max_workers=a.jobs) as pool:
             results = list(pool.map(job, cfgs))
+        # second chance: a configuration that ended with undecided claims while all workers competed for the cores (solver
+        # timeouts are wall-clock) is run once more with little else running; the better of the two results is kept
+        again = [i for i, r in enumerate(results) if r.get("inconclusive") and not r.get("violations")
+                 and not r.get("harness_errors") and r.get("wall_s", 0) < (200 if a.tier == "quick" else 900)]
+        if again and len(cfgs) > 1:
+            with ThreadPoolExecutor(max_workers=min(4, a.jobs)) as pool:
+                second = list(pool.map(job, [cfgs[i] for i in again]))
+            for i, r2 in zip(again, second):
+                r1 = results[i]
+                if r2.get("violations") or (not r2.get("harness_errors")
+                                            and len(r2.get("inconclusive", [])) < len(r1.get("inconclusive", []))):
+                    r2["second_chance"] = True
+                    results[i] = r2
 
     # ---- aggregate
     seed = int(os.environ.get("VERIF_SEED", "0") or 0)
